@@ -64,6 +64,16 @@ def runFuzz (c : Case) : Res :=
   let tags := ["nt=C05", s!"out={out}", s!"malformed={(kv? c.header "malformed").getD "?"}"]
   if out == "panic" then
     { verdict := "DIFF", tags := "dk=panic" :: tags, msg := "implementation panicked: " ++ String.intercalate " " (impl.drop 2) }
+  else if out == "err" then
+    -- C05: an error message attributes the problem to a file, row or security.  The input file is
+    -- `in.csv`; securities are S0..S3/ZZZ; messages about the options (-b, --date-fmt) are `argerr`.
+    let msg := String.intercalate " " (impl.drop 2)
+    let has := fun (t : String) => (msg.splitOn t).length > 1
+    if has "in.csv" || has "row " || has " S0" || has " S1" || has " S2" || has " S3" || has "ZZZ" || msg.isEmpty then
+      { verdict := "ok", tags := tags }
+    else
+      { verdict := "ORACLE", tags := "of=C05" :: tags,
+        msg := "the run fails with a message that names neither the file, a row nor a security: " ++ msg }
   else { verdict := "ok", tags := tags }
 
 /-- Family `errvis` (C04, application level): visibility of the rejection in every output mode,
